@@ -225,6 +225,13 @@ class Explorer:
                 return ("tup", tuple(ops))
         if pv[0] == "agg" and el[0] == "dc":
             return self.update_val(pv, rest[1:], val)
+        if pv[0] == "arr" and el[0] == "ci" and isinstance(el[1], int) and 0 <= el[1] < len(pv[1]):
+            ops = list(pv[1])
+            nv = self.update_val(ops[el[1]], rest[1:], val)
+            if nv is None:
+                return None
+            ops[el[1]] = nv
+            return ("arr", tuple(ops))
         return None
 
     def project_val(self, st, v, el):
@@ -582,7 +589,35 @@ class Explorer:
     def rvalue(self, st, fr, rv):
         k = rv["k"]
         if k == "use":
-            return self.operand(st, fr, rv["op"])
+            v = self.operand(st, fr, rv["op"])
+            pl = rv["op"].get("move") or rv["op"].get("copy")
+            if v[0] == "sym" and pl is not None and not pl["p"]:
+                # a whole struct local moved / copied after some of its fields were assigned (`self.x = ..; self`): the value
+                # is the struct with those fields replaced - materialised so that the updates travel with it
+                root = fr.root(pl["l"])
+                subs = [(kk[1], vv) for kk, vv in st.heap.items() if kk[0] == root and kk[1]]
+                if subs:
+                    adt = fr.fn["locals"][pl["l"]].split("<")[0]
+                    a = self.F.adts.get(adt)
+                    if a and a.get("kind") == "struct" and a.get("variants"):
+                        fs = a["variants"][0]["fields"]
+                        vals = [SYM(self.cap(("field", v[1], i))) for i in range(len(fs))]
+                        okm = True
+                        for pth, vv in sorted(subs, key=lambda x: len(x[0])):
+                            if pth[0][0] != "f" or pth[0][1] >= len(vals):
+                                okm = False
+                                break
+                            if len(pth) == 1:
+                                vals[pth[0][1]] = vv
+                            else:
+                                nv = self.update_val(vals[pth[0][1]], pth[1:], vv)
+                                if nv is None:
+                                    okm = False
+                                    break
+                                vals[pth[0][1]] = nv
+                        if okm:
+                            return ("agg", adt, a["variants"][0]["name"], tuple(vals))
+            return v
         if k == "ref" or k == "rawptr":
             r = self.resolve_place(st, fr, rv["place"])
             if r[0] == "val":
@@ -625,7 +660,12 @@ class Explorer:
             a = self.operand(st, fr, rv["a"])
             if rv["op"] == "Not":
                 if a[0] == "c":
-                    return C(0 if a[1] else 1) if (a[2] in (None, "bool")) else SYM(("not", a))
+                    if a[2] in (None, "bool"):
+                        return C(0 if a[1] else 1)
+                    rng = int_range(a[2]) if isinstance(a[1], int) else None
+                    if rng and rng[0] == 0 and rng[1] is not None:
+                        return C(~a[1] & rng[1], a[2])         # bitwise complement of an unsigned constant
+                    return SYM(("not", a))
                 return SYM(("not", a))
             if rv["op"] == "PtrMetadata":
                 return SYM(self.cap(("len", a)))
@@ -1069,6 +1109,30 @@ class Explorer:
             return "stop"
         fr.bb = target
         return "ok"
+
+    def std_fn_item_values(self, st, stack, finfo, argvals, site):
+        """Value(s) of std_fn(argvals) according to the call models: [(state, stack, value)], or None when no model applies.
+        The model writes into a scratch local of the current frame; forks are carried through."""
+        fr = stack[-1]
+        scratch = 100000 + len(stack)
+        keep_bb = fr.bb
+        t2 = {"dest": {"l": scratch, "p": []}, "t": keep_bb, "args": [], "func": {}, "line": site[1] if site else None}
+        pth = finfo["path"]
+        try:
+            r = self.model_call(st, stack, fr, finfo, pth, list(argvals), t2, site)
+        except (KeyError, IndexError, TypeError):
+            r = None
+        if r is None or r in ("stop", "entered"):
+            return None if r is None else []
+        outs = []
+        for (s_, k_) in (r[1] if isinstance(r, tuple) and r[0] == "fork" else [(st, stack)]):
+            key = (k_[-1].root(scratch), ())
+            if key not in s_.heap:
+                return None
+            v = s_.heap.pop(key)
+            k_[-1].bb = keep_bb
+            outs.append((s_, k_, v))
+        return outs
 
     def fn_item_of(self, st, v):
         """Path of the function item a value denotes (directly or behind a reference), else None."""
@@ -2069,7 +2133,9 @@ class Explorer:
                 st.effects.append(("write", a0[1], a0[2], newv, site))
             self.write_loc(st, a0[1], a0[2], newv)
             return ret(cur)
-        if p in ("std::option::Option::<T>::as_ref", "std::option::Option::<T>::as_mut"):
+        if p in ("std::option::Option::<T>::as_ref", "std::option::Option::<T>::as_mut",
+                 "std::option::Option::<T>::as_deref", "std::option::Option::<T>::as_deref_mut"):
+            # (as_deref: the reference to the payload stands for the reference to what it derefs to - Vec -> slice, String -> str)
             a0 = args[0]
             OPT = "std::option::Option"
             if a0[0] != "ref":
@@ -2402,6 +2468,17 @@ class Explorer:
                     self.enter(s2, k2, k2[-1], callee, payload, None, None, cont)
                     alts.append((s2, k2))
                     continue
+                if callee is None:
+                    # a std function in the closure's place (`x.and_then(Option::as_ref)`): its own model decides the value
+                    outs = self.std_fn_item_values(s2, k2, finfo, payload, site)
+                    if outs is not None:
+                        for (s4, k4, v4) in outs:
+                            self.write_place(s4, k4[-1], dest, wrap(v4), site)
+                            if target is None:
+                                continue
+                            k4[-1].bb = target
+                            alts.append((s4, k4))
+                        continue
                 argterms = tuple(self.deref(s2, a) if a[0] == "ref" else a for a in payload)
                 rv = SYM(self.cap(("call", fnitem, argterms)))
                 s2.effects.append(("call", fnitem, tuple(payload), argterms, rv, site))
